@@ -26,7 +26,7 @@ func init() {
 	children["c07"] = c07Child
 }
 
-const c07Kinds = 6
+const c07Kinds = 7
 
 var collidePaths = []string{"a.b/x", "c.d/x", "e.f/x", "g.h/x", "i.j/X", "k.l/x/", "m.n/y", "o.p/y", "fmt", "x.y/fmt", "math/rand", "crypto/rand"}
 
@@ -89,7 +89,11 @@ func c07Recipe(kind int, seed int64, rec *visitRec) (f *jen.File, smallest int, 
 				m := map[string]string{}
 				nk := 2 + r.Intn(7)
 				for j := 0; j < nk; j++ {
-					m[fmt.Sprintf("k%d", r.Intn(20))] = []string{"a", "b`", "c\"", ""}[r.Intn(4)]
+					key := fmt.Sprintf("k%d", r.Intn(20))
+					if r.Intn(3) == 0 {
+						key = []string{"json", "JSON", "Json", "xml", "XML", "Xml", "a", "A", "ab", "aB", "Ab", "AB"}[r.Intn(12)]
+					}
+					m[key] = []string{"a", "b`", "c\"", ""}[r.Intn(4)]
 				}
 				if len(m) < smallest {
 					smallest = len(m)
@@ -132,6 +136,30 @@ func c07Recipe(kind int, seed int64, rec *visitRec) (f *jen.File, smallest int, 
 	case 4: // Dicts of the C16 generator (duplicates, null sides)
 		ps := genDict(r)
 		return buildDictFile(ps, r.Intn(2) == 0, r.Intn(2) == 0, rec), len(ps), dictDesc(ps)
+	case 5: // Dicts whose colliding qualified keys carry nested Dicts with colliding qualified keys
+		f = jen.NewFile("p")
+		inner := func() jen.Dict {
+			d := jen.Dict{}
+			for i, n := 0, 2+r.Intn(4); i < n; i++ {
+				d[jen.Qual(collidePaths[r.Intn(len(collidePaths))], fmt.Sprintf("I%d", r.Intn(4)))] = jen.Qual(collidePaths[r.Intn(len(collidePaths))], fmt.Sprintf("J%d", r.Intn(4)))
+			}
+			return d
+		}
+		outer := jen.Dict{}
+		n := 2 + r.Intn(4)
+		for i := 0; i < n; i++ {
+			k := jen.Qual(collidePaths[r.Intn(len(collidePaths))], fmt.Sprintf("K%d", i))
+			switch r.Intn(3) {
+			case 0:
+				outer[k] = jen.Id("M").Values(inner())
+			case 1:
+				outer[jen.Id("T").Values(inner())] = jen.Id("M").Values(inner())
+			default:
+				outer[k] = jen.Qual(collidePaths[r.Intn(len(collidePaths))], "V")
+			}
+		}
+		f.Var().Id("a").Op("=").Id("MM").Values(outer)
+		return f, n, "nested-dicts-with-colliding-quals"
 	default: // nested Dicts and Dicts in several statements sharing aliases
 		f = jen.NewFile("p")
 		mk := func(depth int) jen.Dict {
